@@ -6,6 +6,10 @@ Input (Python AST of the CURRENT source):
         psd_horvath_kawazoe and psd_horvath_kawazoe_ry (constants prelude; the SLIT potential closure; for every geometry
         the solver call (lower bound, geo) and the width post-processing; the distribution tail),
         _solve_hk / _solve_hk_cy (objective, bounds, p_w_max, coverage, Cheng-Yang correction; the loop shape is matched)
+        psd_microporous: the model-name dispatch (evaluated concretely per accepted name); every assignment to `adsorbate_model` with the
+        tests it sits under and the source of each key (psd_microporous_adsorbate_model); the census of process-wide state of the
+        module - writes of any function to module-level names / function attributes / arguments, memoising decorators
+        (psd_micro_module_writes; `module_state` is reused by py2v_psdmeso.py)
 Output: a Section over a carrier N : Num (RNum for theorems, QNum for exact execution) + an R-only part for exp/ln,
         every definition with its definedness predicate `<name>_def` (all denominators <> 0, equal array lengths).
         scipy.constants.X is inlined as the exact rational of the float scipy provides.
@@ -756,6 +760,137 @@ def dispatch_table(tree, fn):
     return '\n'.join(out)
 
 
+MUTATORS = {'append', 'extend', 'insert', 'remove', 'pop', 'clear', 'update', 'setdefault', 'add', 'discard', 'popitem', 'sort', 'reverse',
+            '__setitem__', '__delitem__', 'appendleft', 'popleft', 'move_to_end'}
+
+
+def _root_name(n):
+    while isinstance(n, (ast.Attribute, ast.Subscript)):
+        n = n.value
+    return n.id if isinstance(n, ast.Name) else None
+
+
+def module_state(tree):
+    """census of process-wide state in psd_micro.py: every place where a function writes to something that outlives the call
+       (name, function): a module-level name (or a function object) rebound through `global`, stored into by subscript / attribute, deleted from,
+                         or mutated by a container method; '@<decorator>' for a memoising decorator; 'arg:<param>...' for a store into an argument"""
+    top = set()
+    for n in tree.body:
+        if isinstance(n, (ast.Assign, ast.AnnAssign, ast.AugAssign)):
+            for t in (n.targets if isinstance(n, ast.Assign) else [n.target]):
+                for x in ast.walk(t):
+                    if isinstance(x, ast.Name):
+                        top.add(x.id)
+        elif isinstance(n, (ast.FunctionDef, ast.ClassDef)):
+            top.add(n.name)
+    out = []
+    for f in ast.walk(tree):
+        if not isinstance(f, (ast.FunctionDef, ast.AsyncFunctionDef)):
+            continue
+        for d in f.decorator_list:
+            txt = ast.unparse(d)
+            if 'cache' in txt.lower() or 'memo' in txt.lower():
+                out.append(('@' + txt, f.name))
+        params = {a.arg for a in f.args.args + f.args.kwonlyargs + f.args.posonlyargs} | ({f.args.vararg.arg} if f.args.vararg else set()) | \
+                 ({f.args.kwarg.arg} if f.args.kwarg else set())
+        glob = set()
+        local = set(params)
+        for n in ast.walk(f):
+            if isinstance(n, (ast.Global, ast.Nonlocal)):
+                glob |= set(n.names)
+        for n in ast.walk(f):
+            if isinstance(n, ast.Name) and isinstance(n.ctx, (ast.Store, ast.Del)) and n.id not in glob:
+                local.add(n.id)
+        for n in ast.walk(f):
+            if isinstance(n, ast.Name) and isinstance(n.ctx, (ast.Store, ast.Del)) and n.id in glob:
+                out.append((n.id, f.name))
+            elif isinstance(n, (ast.Attribute, ast.Subscript)) and isinstance(n.ctx, (ast.Store, ast.Del)):
+                r = _root_name(n)
+                if r is None:
+                    out.append(('<expression>' + ast.unparse(n), f.name))
+                elif r in params:
+                    out.append(('arg:' + ast.unparse(n), f.name))
+                elif r not in local and (r in top or r in glob):
+                    out.append((r, f.name))
+            elif isinstance(n, ast.Call) and isinstance(n.func, ast.Attribute) and n.func.attr in MUTATORS:
+                r = _root_name(n.func.value)
+                if r is not None and r not in local and r in top:
+                    out.append((r, f.name))
+            elif isinstance(n, ast.Call) and isinstance(n.func, ast.Name) and n.func.id in ('setattr', 'delattr'):
+                out.append(('setattr:' + ast.unparse(n), f.name))
+    seen = []
+    for x in out:
+        if x not in seen:
+            seen.append(x)
+    return seen
+
+
+def adsorbate_sources(tree, fn):
+    """every assignment to `adsorbate_model` inside psd_microporous: the tests it sits under and, key by key, where the value comes from"""
+    fd = find_fun(tree, 'psd_microporous', fn)
+    rows = []
+
+    def classify(v):
+        txt = ast.unparse(v)
+        if isinstance(v, ast.Call) and isinstance(v.func, ast.Attribute) and ast.unparse(v.func.value) == 'isotherm.adsorbate' and not v.keywords:
+            args = [ast.unparse(a) for a in v.args]
+            if v.func.attr == 'get_prop' and len(v.args) == 1 and isinstance(v.args[0], ast.Constant) and isinstance(v.args[0].value, str):
+                return 'FromProperty "%s"' % v.args[0].value
+            if args == ['isotherm.temperature']:
+                return 'FromMethodAtIsothermTemperature "%s"' % v.func.attr
+            if args == []:
+                return 'FromMethod "%s"' % v.func.attr
+        return 'OtherSource "%s"' % txt.replace('"', "'").replace('\n', ' ')
+
+    def walk(stmts, guard):
+        for s in stmts:
+            tg = []
+            if isinstance(s, ast.Assign):
+                tg = s.targets
+            elif isinstance(s, (ast.AnnAssign, ast.AugAssign)):
+                tg = [s.target]
+            hit = any(_root_name(t) == 'adsorbate_model' for t in tg for t in (t.elts if isinstance(t, ast.Tuple) else [t]))
+            if not hit:
+                for n in ast.walk(s) if not isinstance(s, (ast.If, ast.Try, ast.For, ast.While, ast.With)) else []:
+                    if isinstance(n, ast.NamedExpr) and n.target.id == 'adsorbate_model':
+                        hit = True
+                    if isinstance(n, ast.Call) and isinstance(n.func, ast.Attribute) and n.func.attr in MUTATORS and _root_name(n.func.value) == 'adsorbate_model':
+                        hit = True
+            if hit:
+                v = getattr(s, 'value', None)
+                if isinstance(s, ast.Assign) and len(tg) == 1 and isinstance(tg[0], ast.Name) and isinstance(v, ast.Dict) and \
+                        all(isinstance(k, ast.Constant) and isinstance(k.value, str) for k in v.keys):
+                    rows.append((' and '.join(guard), [(k.value, classify(x)) for k, x in zip(v.keys, v.values)]))
+                else:
+                    rows.append((' and '.join(guard), [('*', 'OtherSource "%s"' % ast.unparse(s).replace('"', "'").replace('\n', ' '))]))
+                continue
+            if isinstance(s, ast.If):
+                t = ast.unparse(s.test)
+                walk(s.body, guard + [t])
+                walk(s.orelse, guard + ['not (%s)' % t])
+            elif isinstance(s, ast.Try):
+                walk(s.body, guard)
+                for h in s.handlers:
+                    walk(h.body, guard + ['except ' + (ast.unparse(h.type) if h.type else '')])
+                walk(s.orelse, guard)
+                walk(s.finalbody, guard)
+            elif isinstance(s, (ast.For, ast.While)):
+                walk(s.body, guard + ['loop'])
+                walk(s.orelse, guard)
+            elif isinstance(s, ast.With):
+                walk(s.body, guard)
+    walk(strip_doc(fd.body), [])
+    writes = module_state(tree)
+    out = ['(* psd_microporous(adsorbate_model=None): every assignment to `adsorbate_model` in the function - the tests it sits under and, key by key,\n'
+           '   where the value comes from; and the census of process-wide state of psd_micro.py: every (name, function) where a function writes to a\n'
+           '   module-level name / function attribute / argument or carries a memoising decorator *)',
+           'Inductive ads_source : Set := FromProperty (key : string) | FromMethodAtIsothermTemperature (method : string) | FromMethod (method : string) | OtherSource (text : string).',
+           'Definition psd_microporous_adsorbate_model : list (string * list (string * ads_source)) := [%s].' % '; '.join(
+               '("%s", [%s])' % (g, '; '.join('("%s", %s)' % (k, v) for k, v in kv)) for g, kv in rows),
+           'Definition psd_micro_module_writes : list (string * string) := [%s].\n' % '; '.join('("%s", "%s")' % (a.replace('"', "'"), b) for a, b in writes)]
+    return '\n'.join(out)
+
+
 def scalar_function(tr, tree, fn, pyname, coqname, ptypes):
     fd = find_fun(tree, pyname, fn)
     params = [a.arg for a in fd.args.args]
@@ -812,7 +947,7 @@ def translate(src):
     hk_function(tr, tree, fn, 'psd_horvath_kawazoe', 'hk', T)
     hk_function(tr, tree, fn, 'psd_horvath_kawazoe_ry', 'ry', T)
     solver_shape(tree, fn)
-    dispatch = dispatch_table(tree, fn)
+    dispatch = dispatch_table(tree, fn) + '\n' + adsorbate_sources(tree, fn)
 
     o = []
     o.append('(* GENERATED by tools/py2v_hk.py from pygaps/characterisation/psd_micro.py and models_hk.py\n'
